@@ -6,6 +6,8 @@ import (
 	"context"
 	"encoding/json"
 	"fmt"
+	"math"
+	"strconv"
 	"testing"
 	"time"
 
@@ -28,8 +30,10 @@ import (
 	slov1alpha1 "github.com/koordinator-sh/koordinator/apis/slo/v1alpha1"
 	"github.com/koordinator-sh/koordinator/pkg/slo-controller/noderesource/framework"
 	"github.com/koordinator-sh/koordinator/pkg/slo-controller/noderesource/plugins/batchresource"
+	"github.com/koordinator-sh/koordinator/pkg/slo-controller/noderesource/plugins/cpunormalization"
 	"github.com/koordinator-sh/koordinator/pkg/slo-controller/noderesource/plugins/midresource"
 	"github.com/koordinator-sh/koordinator/pkg/util"
+	"github.com/koordinator-sh/koordinator/pkg/util/sloconfig"
 	"github.com/koordinator-sh/koordinator/pkg/util/testutil"
 )
 
@@ -64,30 +68,146 @@ type c09hPod struct {
 }
 
 type c09hScn struct {
-	enabled          bool
-	cpuThr, memThr   int64
-	cpuPol, memPol   int // 0 usage 1 request 2 maxUsageRequest 3 nil
-	cpuCap, memCap   int64
-	degradeMin       int64
-	interval         int64
-	diffPermille     int64
-	midStatic        bool
-	midPct           [5]int64 // -1 nil
-	capC, capM       int64
-	allocC, allocM   int64
-	annoC, annoM     int64 // -1: no reservation annotation
-	sysC, sysM       int64
-	metricKind       int // 0 present, 1 no update time, 2 NodeMetric object absent
-	age              int64
-	pods             []c09hPod
-	dangling         [][3]int64 // prio(0..3), cpu, mem
-	hostPrio         int        // -1 none
-	hostC, hostM     int64
-	hasReclaim       bool
-	recC, recM       int64
-	usageValid       bool
-	nodeUseC         int64
-	nodeUseM         int64
+	enabled        bool
+	cpuThr, memThr int64
+	cpuPol, memPol int // 0 usage 1 request 2 maxUsageRequest 3 nil
+	cpuCap, memCap int64
+	degradeMin     int64
+	interval       int64
+	diffPermille   int64
+	midStatic      bool
+	midPct         [5]int64 // -1 nil
+	capC, capM     int64
+	allocC, allocM int64
+	annoC, annoM   int64 // -1: no reservation annotation
+	sysC, sysM     int64
+	metricKind     int // 0 present, 1 no update time, 2 NodeMetric object absent
+	age            int64
+	pods           []c09hPod
+	dangling       [][3]int64 // prio(0..3), cpu, mem
+	hostPrio       int        // -1 none
+	hostC, hostM   int64
+	hasReclaim     bool
+	recC, recM     int64
+	usageValid     bool
+	nodeUseC       int64
+	nodeUseM       int64
+	// cpu normalization (extension 3): where the NodeResource's ratio annotation comes from
+	normKind  int // 0 node label disables it ("1.00"), 1 NRT cpu-basic-info looked up in the config's ratio model, 2 no basic info (no annotation), 3 stub plugin writes normStub
+	normModel int // index into c09hModels
+	normHT    bool
+	normTurbo bool
+	normStub  string // "abc", "", "0.80"
+	annoEvent int    // one-shot, this round only: 1 somebody wipes the controller-owned node annotations, 2 writes junk into the ratio annotation
+	zoned     bool   // the NodeResourceTopology object (when there is one) reports two NUMA zones with cpu + memory
+}
+
+// the cpu-normalization config of every case (slo-controller-config ConfigMap) and the ratio (in percent) it yields per
+// (model, hyper-thread, turbo); -1 = no ratio => the plugin's Calculate fails => no annotation in the NodeResource.
+var c09hModels = []string{"m1", "m2", "m3"}
+
+const c09hNormCfg = `{"enable":true,"ratioModel":{` +
+	`"m1":{"baseRatio":1.0,"hyperThreadEnabledRatio":1.2,"turboEnabledRatio":2.0,"hyperThreadTurboEnabledRatio":1.5},` +
+	`"m2":{"baseRatio":1.05,"turboEnabledRatio":3.33,"hyperThreadTurboEnabledRatio":5.0}}}`
+
+func (s *c09hScn) normExpected() (kind int, pct int64) { // kind: 0 absent 1 unparsable 2 pct
+	switch s.normKind {
+	case 0:
+		return 2, 100
+	case 1:
+		tbl := [3][2][2]int64{{{100, 200}, {120, 150}}, {{105, 333}, {-1, 500}}, {{-1, -1}, {-1, -1}}}
+		v := tbl[s.normModel][vB(s.normHT)][vB(s.normTurbo)]
+		if v < 0 {
+			return 0, 0
+		}
+		return 2, v
+	case 2:
+		return 0, 0
+	default:
+		if s.normStub == "0.80" {
+			return 2, 80
+		}
+		return 1, 0
+	}
+}
+
+// c09hRatioStub stands for any other producer of the NodeResource's ratio annotation (an out-of-tree plugin, a later
+// version of the cpunormalization plugin): it runs last in the calculate chain and overrides the annotation verbatim.
+type c09hRatioStub struct{}
+
+var c09hStubValue *string
+
+func (*c09hRatioStub) Name() string { return "C09RatioStub" }
+func (*c09hRatioStub) Reset(*corev1.Node, string) []framework.ResourceItem {
+	return nil
+}
+func (*c09hRatioStub) Calculate(*configuration.ColocationStrategy, *corev1.Node, *corev1.PodList, *framework.ResourceMetrics) ([]framework.ResourceItem, error) {
+	if c09hStubValue == nil {
+		return nil, nil
+	}
+	return []framework.ResourceItem{{Name: "C09RatioStub", Annotations: map[string]string{extension.AnnotationCPUNormalizationRatio: *c09hStubValue}}}, nil
+}
+
+func c09hRatioTok(anno map[string]string) (int, int64) {
+	v, ok := anno[extension.AnnotationCPUNormalizationRatio]
+	if !ok {
+		return 0, 0
+	}
+	f, err := strconv.ParseFloat(v, 64)
+	if err != nil || math.IsNaN(f) || math.IsInf(f, 0) {
+		return 1, 0
+	}
+	return 2, int64(math.Round(f * 100))
+}
+
+// cpuBound: an upper bound on the documented batch-cpu formula, evaluated from scratch on the scenario: capacity − margin −
+// max(system usage + prod/mid host application, reservation) − what the pods that are high-priority BY LABEL are charged
+// (a lower bound of the HP consumption, so an upper bound of the amount), capped by the batch percentage.
+func (s *c09hScn) cpuBound() int64 {
+	mulPct := func(v, k int64) int64 { return int64(float64(v) * (float64(k) / 100)) }
+	reserved := s.capC - s.allocC
+	if reserved < 0 {
+		reserved = 0
+	}
+	if s.annoC > reserved {
+		reserved = s.annoC
+	}
+	sys := s.sysC
+	if s.hostPrio == 0 || s.hostPrio == 1 {
+		sys += s.hostC
+	}
+	if reserved > sys {
+		sys = reserved
+	}
+	hp := int64(0)
+	for _, p := range s.pods {
+		if p.phase > 1 || (p.prioLabel != 0 && p.prioLabel != 1) {
+			continue
+		}
+		c := p.reqC
+		if p.hasMet {
+			c = p.useC
+			if s.cpuPol == 2 && p.reqC > c {
+				c = p.reqC
+			}
+		}
+		hp += c
+	}
+	for _, d := range s.dangling {
+		if d[0] == 0 || d[0] == 1 {
+			hp += d[1]
+		}
+	}
+	b := s.capC - mulPct(s.capC, 100-s.cpuThr) - sys - hp
+	if b < 0 {
+		b = 0
+	}
+	if s.cpuCap >= 0 {
+		if l := mulPct(s.capC, s.cpuCap); l < b {
+			b = l
+		}
+	}
+	return b
 }
 
 var c09hPrio = []string{string(extension.PriorityProd), string(extension.PriorityMid), string(extension.PriorityBatch), string(extension.PriorityFree)}
@@ -185,6 +305,14 @@ func (s *c09hScn) emit(h *vHarness, vnow int64) {
 	}
 	h.Op("mnode 0")
 	h.Op("hcfg %d %d %d", vB(s.enabled), s.interval, s.diffPermille)
+	nk, np := s.normExpected()
+	h.Op("norm %d %d", nk, np)
+	switch s.annoEvent {
+	case 1:
+		h.Op("nodewipe")
+	case 2:
+		h.Op("noderatio 1 0")
+	}
 	h.Op("rec")
 }
 
@@ -196,11 +324,75 @@ func (s *c09hScn) apply(ctx context.Context, c ctrlclient.Client, first bool) er
 	} else if err := c.Get(ctx, types.NamespacedName{Name: "n0"}, node); err != nil {
 		return err
 	}
+	// annotations: the user-owned reservation is rewritten; the controller-owned ones (ratio, origin allocatable) stay
+	// unless this round's event wipes them
+	kept := map[string]string{}
+	if s.annoEvent != 1 {
+		for _, k := range []string{extension.AnnotationCPUNormalizationRatio, slov1alpha1.NodeOriginExtendedAllocatableAnnotationKey} {
+			if v, ok := node.Annotations[k]; ok {
+				kept[k] = v
+			}
+		}
+	}
+	if s.annoEvent == 2 {
+		kept[extension.AnnotationCPUNormalizationRatio] = "xyz"
+	}
 	if s.annoC >= 0 {
 		b, _ := json.Marshal(extension.NodeReservation{Resources: c09hRL(s.annoC, s.annoM)})
-		node.Annotations = map[string]string{extension.AnnotationNodeReservation: string(b)}
+		kept[extension.AnnotationNodeReservation] = string(b)
+	}
+	if len(kept) > 0 {
+		node.Annotations = kept
 	} else {
 		node.Annotations = nil
+	}
+	if s.normKind == 0 {
+		node.Labels = map[string]string{extension.LabelCPUNormalizationEnabled: "false"}
+	} else {
+		node.Labels = nil
+	}
+	// NodeResourceTopology: carries the cpu-basic-info annotation the cpunormalization plugin reads (no zones)
+	{
+		nrt := &topov1alpha1.NodeResourceTopology{}
+		have := c.Get(ctx, types.NamespacedName{Name: "n0"}, nrt) == nil
+		want := s.normKind == 1 || s.normModel == 0 || s.zoned // normKind != 1: object present without the annotation, or absent
+		if have && !want {
+			if err := c.Delete(ctx, nrt); err != nil {
+				return err
+			}
+		}
+		if want {
+			if !have {
+				nrt = &topov1alpha1.NodeResourceTopology{ObjectMeta: metav1.ObjectMeta{Name: "n0"}, TopologyPolicies: []string{"None"}}
+			}
+			if s.zoned && len(nrt.Zones) == 0 { // the zones the koordlet reports; the controller adds the batch amounts to them
+				for i := 0; i < 2; i++ {
+					zc, zm := *resource.NewMilliQuantity(s.capC/2, resource.DecimalSI), *resource.NewQuantity(s.capM/2, resource.BinarySI)
+					nrt.Zones = append(nrt.Zones, topov1alpha1.Zone{Name: fmt.Sprintf("node-%d", i), Type: "Node", Resources: topov1alpha1.ResourceInfoList{
+						{Name: "cpu", Capacity: zc, Allocatable: zc, Available: zc}, {Name: "memory", Capacity: zm, Allocatable: zm, Available: zm}}})
+				}
+			}
+			nrt.Annotations = nil
+			if s.normKind == 1 {
+				b, _ := json.Marshal(extension.CPUBasicInfo{CPUModel: c09hModels[s.normModel], HyperThreadEnabled: s.normHT, TurboEnabled: s.normTurbo})
+				nrt.Annotations = map[string]string{extension.AnnotationCPUBasicInfo: string(b)}
+			}
+			var err error
+			if have {
+				err = c.Update(ctx, nrt)
+			} else {
+				err = c.Create(ctx, nrt)
+			}
+			if err != nil {
+				return err
+			}
+		}
+	}
+	if s.normKind == 3 {
+		v := s.normStub
+		c09hStubValue = &v
+	} else {
+		c09hStubValue = nil
 	}
 	setStatus := func(n *corev1.Node) {
 		if n.Status.Capacity == nil {
@@ -412,7 +604,36 @@ func c09hGen(r *vRand) *c09hScn {
 	s.recC, s.recM = r.Int63n(hi/2+1), r.Int63n(hi/2+1)
 	s.usageValid = r.Chance(5, 6)
 	s.nodeUseC, s.nodeUseM = r.Int63n(hi+1), r.Int63n(hi+1)
+	c09hGenNorm(r, s)
+	s.zoned = r.Chance(1, 3)
 	return s
+}
+
+func c09hGenNorm(r *vRand, s *c09hScn) {
+	s.normKind = []int{0, 1, 1, 1, 1, 2, 2, 3}[r.Intn(8)]
+	s.normModel = []int{0, 0, 0, 1, 1, 2}[r.Intn(6)]
+	s.normHT, s.normTurbo = r.Bool(), r.Bool()
+	s.normStub = []string{"abc", "", "0.80"}[r.Intn(3)]
+}
+
+// c09hZoneBatch: the largest batch-cpu / batch-memory amount any zone of the stored NodeResourceTopology carries (-1: none).
+func c09hZoneBatch(ctx context.Context, c ctrlclient.Client) (int64, int64, bool) {
+	nrt := &topov1alpha1.NodeResourceTopology{}
+	if err := c.Get(ctx, types.NamespacedName{Name: "n0"}, nrt); err != nil || len(nrt.Zones) == 0 {
+		return -1, -1, false
+	}
+	zc, zm := int64(-1), int64(-1)
+	for _, z := range nrt.Zones {
+		for _, ri := range z.Resources {
+			if ri.Name == string(extension.BatchCPU) && ri.Allocatable.Value() > zc {
+				zc = ri.Allocatable.Value()
+			}
+			if ri.Name == string(extension.BatchMemory) && ri.Allocatable.Value() > zm {
+				zm = ri.Allocatable.Value()
+			}
+		}
+	}
+	return zc, zm, true
 }
 
 // c09hMutate changes the scenario between two rounds; returns the kind of change.
@@ -426,7 +647,21 @@ func c09hMutate(r *vRand, s *c09hScn) string {
 		}
 		return v
 	}
-	switch r.Intn(12) {
+	switch r.Intn(15) {
+	case 12: // the cpu-normalization inputs change (NRT basic info, node label, another annotation producer)
+		c09hGenNorm(r, s)
+		return "norm-change"
+	case 13: // hyper-threading / turbo toggled on the node
+		if r.Bool() {
+			s.normHT = !s.normHT
+		} else {
+			s.normTurbo = !s.normTurbo
+		}
+		s.normKind = 1
+		return "norm-toggle"
+	case 14: // somebody else edits the node's annotations
+		s.annoEvent = 1 + r.Intn(2)
+		return "node-anno-event"
 	case 0, 1, 2: // metric update: usages move a little or a lot
 		pct := []int64{2, 5, 15, 60}[r.Intn(4)]
 		s.sysC, s.sysM = jitter(s.sysC, pct), jitter(s.sysM, pct)
@@ -516,7 +751,10 @@ func TestVerifC09History(t *testing.T) {
 	if h == nil {
 		t.Skip("VERIF_OUT not set")
 	}
-	addPlugins(func(s string) bool { return s == midresource.PluginName || s == batchresource.PluginName }) // idempotent
+	addPlugins(func(s string) bool {
+		return s == midresource.PluginName || s == batchresource.PluginName || s == cpunormalization.PluginName
+	}) // idempotent
+	framework.RegisterResourceCalculateExtender(func(string) bool { return true }, &c09hRatioStub{}) // last in the chain
 	scheme := runtime.NewScheme()
 	_ = clientgoscheme.AddToScheme(scheme)
 	_ = slov1alpha1.AddToScheme(scheme)
@@ -524,6 +762,7 @@ func TestVerifC09History(t *testing.T) {
 	ctx := context.Background()
 	names := []corev1.ResourceName{extension.BatchCPU, extension.BatchMemory, extension.MidCPU, extension.MidMemory}
 	n := h.N(250, 1500)
+	loggedFrozen, loggedNil := false, false
 	for idx := 0; idx < n; idx++ {
 		r := h.Begin(idx)
 		if r == nil {
@@ -534,8 +773,13 @@ func TestVerifC09History(t *testing.T) {
 			WithIndex(&corev1.Pod{}, "spec.nodeName", func(obj ctrlclient.Object) []string {
 				return []string{obj.(*corev1.Pod).Spec.NodeName}
 			}).Build()
-		opt := framework.NewOption().WithClient(c).WithScheme(scheme).WithControllerBuilder(builder.ControllerManagedBy(&testutil.FakeManager{}))
-		framework.RunSetupExtenders(opt) // hands the client to the batch plugin
+		if err := c.Create(ctx, &corev1.ConfigMap{ObjectMeta: metav1.ObjectMeta{Namespace: sloconfig.ConfigNameSpace, Name: sloconfig.SLOCtrlConfigMap},
+			Data: map[string]string{configuration.CPUNormalizationConfigKey: c09hNormCfg}}); err != nil {
+			t.Fatalf("config map: %v", err)
+		}
+		opt := framework.NewOption().WithClient(c).WithScheme(scheme).WithControllerBuilder(builder.ControllerManagedBy(&testutil.FakeManager{})).
+			WithRecorder(&record.FakeRecorder{})
+		framework.RunSetupExtenders(opt) // hands the client to the batch plugin; fresh config cache for the cpunormalization plugin
 		vnow := int64(1700000000)
 		clk := fakeclock.NewFakeClock(time.Unix(vnow, 0))
 		s := c09hGen(r)
@@ -562,6 +806,9 @@ func TestVerifC09History(t *testing.T) {
 				break
 			}
 			s.emit(h, vnow)
+			annoEvent := s.annoEvent
+			s.annoEvent = 0
+			h.Tag(fmt.Sprintf("norm:kind=%d", s.normKind))
 			var err error
 			if h.Guard(func() { _, err = rec.Reconcile(ctx, ctrl.Request{NamespacedName: types.NamespacedName{Name: "n0"}}) }) {
 				h.Obs("panic")
@@ -600,6 +847,50 @@ func TestVerifC09History(t *testing.T) {
 			}
 			h.Obs("node %d %d %d %d", pub[0], pub[1], pub[2], pub[3])
 			h.Obs("sync %d", vB(synced))
+			rk, rp := c09hRatioTok(node.Annotations)
+			h.Obs("ratio %d %d", rk, rp)
+			// the origin annotation (batch amounts before third-party allocations) on the API object: it travels with the meta
+			// patch only.  TAG ONLY: how often it lags behind the amounts the same object carries
+			if origin, e := slov1alpha1.GetOriginExtendedAllocatable(node.Annotations); e != nil || origin == nil {
+				h.Obs("originanno none")
+				if pub[0] >= 0 {
+					h.Tag("origin-anno:absent-while-published")
+				}
+			} else {
+				oc, om := origin.Resources[extension.BatchCPU], origin.Resources[extension.BatchMemory]
+				h.Obs("originanno %d %d", oc.Value(), om.Value())
+				switch {
+				case pub[0] < 0:
+					h.Tag("origin-anno:kept-while-withdrawn")
+				case oc.Value() == pub[0] && om.Value() == pub[1]:
+					h.Tag("origin-anno:equals-node")
+				default:
+					h.Tag("origin-anno:lags-node")
+				}
+			}
+			// oracle (statement level, cpu normalization): a batch-cpu amount written in this round is at most the documented
+			// formula times the NodeResource's ratio, rounded up — the ratio applied exactly once, and only when it is > 1.0
+			nk, np := s.normExpected()
+			if synced && pub[0] >= 0 {
+				bound := s.cpuBound()
+				lim := bound
+				if nk == 2 && np > 100 {
+					lim = (bound*np + 99) / 100
+				}
+				if pub[0] > lim {
+					h.Fail("C09:node-above-ratio-bound", "round %d (%s): the node carries batch-cpu %d > bound %d (formula bound %d, cpu-normalization ratio kind %d pct %d applied once)",
+						k, what, pub[0], lim, bound, nk, np)
+				}
+				h.Tag(fmt.Sprintf("norm:amplified=%v", nk == 2 && np > 100))
+			}
+			if annoEvent != 0 {
+				h.Tag(fmt.Sprintf("norm:anno-event=%d", annoEvent))
+			}
+			if rk == nk && rp == np {
+				h.Tag("norm:node-ratio=nr")
+			} else {
+				h.Tag("norm:node-ratio!=nr")
+			}
 			// oracle (statement level): stale / missing metric or disabled colocation withdraws every resource at once;
 			// the first fresh round after that publishes all of them again; an unwritten node was written at most
 			// `interval` seconds ago
@@ -616,6 +907,25 @@ func TestVerifC09History(t *testing.T) {
 			} else if lastSync < 0 || vnow-lastSync > s.interval {
 				h.Fail("C09:sync-interval-exceeded", "round %d (%s): node not written although the last write is %ds old (interval %ds)", k, what, vnow-lastSync, s.interval)
 			}
+			// candidate noticed by reading, TAG ONLY (not part of the verdict): the NUMA-zone batch amounts on the
+			// NodeResourceTopology object after a round that withdrew the node-level amounts
+			if zc, zm, ok := c09hZoneBatch(ctx, c); ok {
+				switch {
+				case stale && (zc > 0 || zm > 0):
+					h.Tag("nrt-zones:withdrawn-round-still-published")
+					if !loggedFrozen {
+						loggedFrozen = true
+						t.Logf("C09 candidate (zone amounts frozen): case %d round %d (%s): node carries (%d,%d,%d,%d) but an NRT zone still carries batch-cpu %d batch-memory %d",
+							idx, k, what, pub[0], pub[1], pub[2], pub[3], zc, zm)
+					}
+				case stale:
+					h.Tag("nrt-zones:withdrawn-round-zero-or-absent")
+				case zc >= 0 || zm >= 0:
+					h.Tag("nrt-zones:fresh-round-published")
+				default:
+					h.Tag("nrt-zones:fresh-round-absent")
+				}
+			}
 			if stale {
 				h.Tag("round-out:withdrawn")
 			} else if synced {
@@ -628,10 +938,44 @@ func TestVerifC09History(t *testing.T) {
 			}
 			withdrawn = none
 		}
+		// candidate noticed by reading, TAG ONLY: a NodeMetric with a fresh UpdateTime whose Status.NodeMetric is nil
+		// (no observation is emitted: the registered verdict does not depend on it)
+		if !broken && r.Chance(1, 8) {
+			nm := &slov1alpha1.NodeMetric{}
+			if err := c.Get(ctx, types.NamespacedName{Name: "n0"}, nm); err == nil && s.enabled {
+				nm.Status.UpdateTime = &metav1.Time{Time: time.Now()}
+				nm.Status.NodeMetric = nil
+				if err := c.Status().Update(ctx, nm); err == nil {
+					var rerr error
+					panicked := func() (p bool) {
+						defer func() {
+							if recover() != nil {
+								p = true
+							}
+						}()
+						_, rerr = rec.Reconcile(ctx, ctrl.Request{NamespacedName: types.NamespacedName{Name: "n0"}})
+						return false
+					}()
+					if panicked {
+						h.Tag("probe-nil-nodemetric:panic")
+						if !loggedNil {
+							loggedNil = true
+							t.Logf("C09 candidate (nil Status.NodeMetric): case %d: Reconcile panics for a NodeMetric with UpdateTime=now and Status.NodeMetric=nil", idx)
+						}
+					} else if rerr != nil {
+						h.Tag("probe-nil-nodemetric:error")
+					} else {
+						h.Tag("probe-nil-nodemetric:ok")
+					}
+				}
+			}
+		}
 		h.End()
 	}
-	h.Close("histories of 3-7 reconciles of one node through the real NodeResourceReconciler (fake client, mid + batch plugins): rounds change the metric " +
+	h.Close("histories of 3-7 reconciles of one node through the real NodeResourceReconciler (fake client; real mid, batch and cpunormalization plugins + a stub ratio producer): rounds change the metric " +
 		"(small / large moves, stale, no update time, NodeMetric deleted), pods (add / remove / phase / priority / request), the strategy (thresholds, policies, " +
-		"diff threshold, sync interval, mid mode, caps, enable toggle) or the node (allocatable, reservation annotation), or only let 1 s .. 2 x interval pass; " +
+		"diff threshold, sync interval, mid mode, caps, enable toggle), the node (allocatable, reservation annotation), the cpu-normalization inputs (real cpunormalization " +
+		"plugin: node label off, NRT cpu-basic-info x ratio model giving 1.00 / 1.05 / 1.20 / 1.50 / 2.00 / 3.33 / 5.00 or no ratio, a stub producer writing an unparsable / " +
+		"empty / 0.80 annotation; node annotations wiped or junk by a third party), or only let 1 s .. 2 x interval pass; " +
 		"non-trivial = a later round with fresh metrics and amounts on the node; distinct by op lines")
 }
